@@ -123,6 +123,8 @@ func checkC19(c *Ctx) {
 	c.RequireCount("C19.dep sites reporting two ambiguous patterns", nSites, 2)
 
 	// ---- a pair predicate, when the package has one
+	nPred := 0
+	defer func() { c.Saw("conflict_predicates", fmt.Sprintf("%d", nPred)) }()
 	for _, fn := range fns {
 		if len(fn.Params) != 2 || fn.Signature.Results().Len() != 1 || fn.Signature.Recv() != nil {
 			continue
@@ -131,10 +133,15 @@ func checkC19(c *Ctx) {
 			continue
 		}
 		// two patterns: Opcode values or the package's records around one
-		if isPattern(fn.Params[0].Type()) && types.Identical(fn.Params[0].Type(), fn.Params[1].Type()) {
+		isOpc := func(t types.Type) bool {
+			n, ok := t.(*types.Named)
+			return ok && n.Obj().Name() == "Opcode" && n.Obj().Pkg() != nil && n.Obj().Pkg().Path() == opkg
+		}
+		if (isOpc(fn.Params[0].Type()) || isPattern(fn.Params[0].Type())) && types.Identical(fn.Params[0].Type(), fn.Params[1].Type()) {
 			if fn.Blocks == nil {
 				continue
 			}
+			nPred++
 			checkConflictPredicate(c, fn)
 		}
 	}
